@@ -1185,6 +1185,22 @@ fn parse_timestamp(s: &str) -> i64 {
     std::process::exit(2);
 }
 
+/// Crate-private value parsers, re-exported for the external verification harness.
+#[cfg(feature = "verif-hooks")]
+pub mod verif {
+    pub fn parse_max_blob_size(s: &str) -> Result<usize, ()> {
+        super::parse_max_blob_size(s)
+    }
+    /// Exits the process with status 2 on invalid input, like the command line does.
+    pub fn parse_duration(s: &str) -> i64 {
+        super::parse_duration(s)
+    }
+    /// Exits the process with status 2 on invalid input, like the command line does.
+    pub fn parse_timestamp(s: &str) -> i64 {
+        super::parse_timestamp(s)
+    }
+}
+
 #[derive(Debug, Clone)]
 struct HelpOption {
     name: String,
